@@ -111,7 +111,11 @@ func (m *RelayMon) BeforeTx(s *Sim, name string, msg sdk.Msg) {
 		}
 		ri.project, ri.snapshot, ri.sub = proj.Index, proj.Snapshot, proj.Subscription
 		ri.resolved = true
-		ri.ledgerKey = fmt.Sprintf("%d|%s|%s|%s|%d", es, r.Provider, proj.Index, r.SpecId, r.SessionId)
+		canon := r.Provider
+		if pa, err := sdk.AccAddressFromBech32(r.Provider); err == nil {
+			canon = pa.String() // the provider is an address, not a spelling
+		}
+		ri.ledgerKey = fmt.Sprintf("%d|%s|%s|%s|%d", es, canon, proj.Index, r.SpecId, r.SessionId)
 		_, ri.wasCredited = m.credited[ri.ledgerKey]
 		// project versions (all of them: the monitor decides which belong to the snapshot)
 		for _, vb := range m.projectVersions(s, proj.Index) {
